@@ -357,6 +357,12 @@ fn unary(x: &Expr) -> Vec<Expr> {
         Expr::RepMax(b(), 2),
         Expr::RepMinMax(b(), 0, 1),
         Expr::RepMinMax(b(), 1, 10),
+        // equal bounds stay a two-bound repetition; the largest count the reader's integer type admits
+        Expr::RepMinMax(b(), 2, 2),
+        Expr::RepMinMax(b(), 1, u32::MAX),
+        Expr::RepExact(b(), u32::MAX),
+        Expr::RepMin(b(), u32::MAX - 1),
+        Expr::RepMax(b(), u32::MAX),
         Expr::PosPred(b()),
         Expr::NegPred(b()),
         Expr::Push(b()),
